@@ -60,6 +60,22 @@ def _is_num(x):
     return isinstance(x, (int, float)) and not isinstance(x, bool)
 
 
+I64_MIN, I64_MAX = -2 ** 63, 2 ** 63 - 1
+
+
+def _int_ok(x):
+    """Int64 range: outside it engines differ (error, wrap, silent switch to REAL)."""
+    return I64_MIN <= x <= I64_MAX
+
+
+def _mix_ok(a, b):
+    """int/float mixing is only pinned while the integer converts exactly to a double."""
+    for x, y in ((a, b), (b, a)):
+        if isinstance(x, int) and isinstance(y, float) and abs(x) > 2 ** 53:
+            return False
+    return True
+
+
 def _ascii(s):
     return all(ord(c) < 128 for c in s)
 
@@ -98,6 +114,8 @@ class Evaluator:
                 return (not x) if isinstance(x, bool) else UNSPEC
             if x is None:
                 return None
+            if _is_num(x) and isinstance(x, int) and not _int_ok(-x):
+                return UNSPEC
             return -x if _is_num(x) else UNSPEC
         if k == "cmp":
             return self.cmp(t, row)
@@ -199,7 +217,8 @@ class Evaluator:
         if isinstance(a, bool) or isinstance(b, bool):
             return UNSPEC
         if _is_num(a) and _is_num(b):
-            pass
+            if not _mix_ok(a, b):
+                return UNSPEC
         elif type(a) is not type(b):
             return UNSPEC
         if op == "lt":
@@ -216,6 +235,8 @@ class Evaluator:
         if isinstance(a, bool) != isinstance(b, bool):
             return UNSPEC
         if _is_num(a) and _is_num(b):
+            if not _mix_ok(a, b):
+                return UNSPEC
             return a == b
         if type(a) is not type(b):
             return UNSPEC
@@ -241,12 +262,15 @@ class Evaluator:
             return a + b        # accepted by the SQLAlchemy backends as concatenation
         if not (_is_num(a) and _is_num(b)):
             return UNSPEC
-        if op == "add":
-            return a + b
-        if op == "sub":
-            return a - b
-        if op == "mul":
-            return a * b
+        if not _mix_ok(a, b):
+            return UNSPEC
+        if op in ("add", "sub", "mul"):
+            r = a + b if op == "add" else a - b if op == "sub" else a * b
+            if isinstance(r, int) and not _int_ok(r):
+                return UNSPEC
+            if isinstance(r, float) and (math.isinf(r) or math.isnan(r)):
+                return UNSPEC
+            return r
         if op == "div":
             if b == 0:
                 return UNSPEC
@@ -358,7 +382,7 @@ class Evaluator:
             x = args[0]
             if x is None:
                 return None
-            if not _is_num(x):
+            if not _is_num(x) or abs(x) > 2 ** 52:
                 return UNSPEC
             if name == "floor":
                 return float(math.floor(x))
